@@ -3,7 +3,7 @@
   bounded-exhaustive statements (every input up to a size bound over a small alphabet), evaluated
   by the kernel (`decide`).  Core-only.
 -/
-import Arrai.C02.Lemmas
+import Arrai.C02.Model
 
 namespace Arrai.C02
 open Arrai Arrai.C02.Rep Arrai.C02.Impl
